@@ -13,7 +13,7 @@ RULE = ('identifier-tagged objects (value = ravelled position, tagged derivative
         'from every entry kind in every position; distinct = distinct request line; non-trivial = the index contains an '
         'array entry, a masked/out-of-range entry or the object has masked elements')
 MANIFEST = {
-    'text': 'Kernel-checked theorems (PMV/Props/C09.lean, 21) about a code-shaped Lean model of polymath/extensions/indexer.py '
+    'text': 'Kernel-checked theorems (PMV/Props/C09.lean, 23) about a code-shaped Lean model of polymath/extensions/indexer.py '
             '(_prep_index statement by statement, _prep_scalar_index, __getitem__ with every mask-representation branch, '
             'relocation of array axes, derivative recursion, iteration) on top of a denotational model of NumPy basic + '
             'advanced indexing, relative to a per-element specification sel. End-to-end refinements getitem = sel: shapeless '
@@ -28,8 +28,9 @@ MANIFEST = {
     'design': 'DESIGN.md §3 C09, DESIGN.d/C09.md',
     'technique': 'Lean 4 proof (induction over index lists linking absolute axis bookkeeping to progressive consumption; case analysis over representations) + model/code correspondence + NumPy kernel suite + spec suite',
     'note': 'NOT proved end to end: several array entries (getitem_arrays), Pair/Vector index objects, integers ahead of a single '
-            'array entry, shapes with empty axes in the one-array theorem (T1 + oracle only); see DESIGN.d/C09.md. Open finding '
-            'KF-C09-1 (integer index on a zero-length axis raises IndexError). Five indexing defects of the pinned tree repaired.',
+            'array entry, shapes with empty axes in the one-array theorem (T1 + oracle only); see DESIGN.d/C09.md. Open findings '
+            'KF-C09-1 (integer index on a zero-length axis raises IndexError) and KF-C09-2 (already masked shapeless object: '
+            'derivatives not masked by a masked Boolean index). Five indexing defects of the pinned tree repaired.',
 }
 ASSUMPTIONS = ['slices are abstracted as the list of source coordinates they select (polymath passes them to NumPy untouched)',
                'NumPy semantics = PMV/Model/NpIndex.lean, validated by the kernel suite of this run (not proved)',
@@ -221,6 +222,11 @@ def signature(case, got, exp):
         how = 'mask'
     else:
         how = 'elements'
+    if (not case['obj']['shape'] and not isinstance(got, str) and not isinstance(exp, str) and len(got) == len(exp)
+            and got[0] == exp[0] and [g[0] for g in got] == [e[0] for e in exp]
+            and mask_bits(case['obj']['mask'], [])[0] and any(e['k'] == 'bool' and e.get('m') for e in case['index'])):
+        # the object's own part is right; only derivatives of an ALREADY MASKED shapeless object differ
+        return 'get:shapeless:masked-object:derivative-not-masked-by-masked-index'
     if got == 'IndexError' and not isinstance(exp, str) and R.int_on_zero_axis(case['obj']['shape'], case['index']):
         return 'get:int-on-zero-length-axis:raises-IndexError'
     return 'get:%s:%s' % (f, how)
@@ -449,6 +455,16 @@ def gen_cases(rng, tier):
                 shape = [rng.choice([0, 1, 2, 3, 2, 3]) for _ in range(rank)]
                 obj = G.rand_object(rng, shape=shape, derivs=False, classes=['Scalar', 'Scalar', 'Vector'])
                 cases.append(mk({'op': 'get', 'obj': obj, 'index': G.concretise(rng, shape, kinds), 'bare': False}))
+    # shapeless objects with derivatives: every combination of object mask x derivative mask x a few scalar indices
+    bm = {'k': 'bool', 'v': True, 'form': 'Boolean', 'm': True}
+    for om in ('F', 'T'):
+        for dmk in ('F', 'T'):
+            for ents in ([bm], [{'k': 'none'}, bm], [bm, {'k': 'ell'}, {'k': 'none'}], [{'k': 'bool', 'v': True, 'form': 'py', 'm': False}],
+                         [{'k': 'bool', 'v': False, 'form': 'Boolean', 'm': False}], [{'k': 'ell'}], [{'k': 'none'}, {'k': 'ell'}]):
+                for cls in ('Scalar', 'Vector'):
+                    obj = {'cls': cls, 'shape': [], 'item': R.ITEMS[cls][0], 'mask': om,
+                           'derivs': {'t': {'denom': [], 'mask': dmk}, 'xy': {'denom': [2], 'mask': 'F'}}}
+                    cases.append(mk({'op': 'get', 'obj': obj, 'index': [dict(e) for e in ents], 'bare': False}))
     for c in list(cases)[:: 2 if thorough else 3]:
         if c['op'] == 'get':
             sib = sel_sibling(c)
